@@ -188,7 +188,7 @@ def gen_parametric(rng):
     conds = ["ge(_, %d)", "le(_, %d)", "eq(_, %d)", "ne(_, %d)", "bit_set(%d)", "bit_clear(%d)", "bit_count_ge(_, %d)", "gt([0:4], %d)", "lt([1:3], %d)"]
     k = rng.randint(0, 3)
     c = rng.choice(conds) % k
-    form = rng.randint(0, 4)
+    form = rng.randint(0, 6)
     R = []   # (lhs, [(kind, sym, param)], cond)
     if form == 0:
         text = 'start: item::0\nitem::_: "a" item::incr([0:3]) | tail::_\ntail::_: "b" %%if %s\n' % c
@@ -210,6 +210,20 @@ def gen_parametric(rng):
         text = 'start: cnt::0 "d"\ncnt::_: "a" cnt::incr([0:2]) | done::_\ndone::_: "" %%if %s\n' % c
         R = [("start", [("N", "cnt", "0"), ("T", "d", None)], None), ("cnt", [("T", "a", None), ("N", "cnt", "incr([0:2])")], None), ("cnt", [("N", "done", "_")], None), ("done", [], c)]
         par = {"cnt", "done"}
+    elif form == 5:
+        # a rule whose whole body is one reference that transforms the parameter (must not be treated as an alias)
+        tf = rng.choice(["incr([0:2])", "incr([0:3])", "decr([0:2])", "set_bit(1)", "bit_or(2)", "bit_and(5)"])
+        s0 = rng.randint(0, 3)
+        text = 'start: loop::%d\nloop::_ : body::%s\nbody::_ : "a" loop::_\n        | "c" loop::_\n        | "b"   %%if %s\n' % (s0, tf, c)
+        R = [("start", [("N", "loop", str(s0))], None), ("loop", [("N", "body", tf)], None), ("body", [("T", "a", None), ("N", "loop", "_")], None),
+             ("body", [("T", "c", None), ("N", "loop", "_")], None), ("body", [("T", "b", None)], c)]
+        par = {"loop", "body"}
+    elif form == 6:
+        tf = rng.choice(["incr([0:2])", "set_bit(0)", "bit_or(4)", "decr([0:3])"])
+        s0 = rng.randint(0, 5)
+        text = 'start: "d" w::%d\nw::_ : v::%s\nv::_ : "a" w::_ "e" | "b" %%if %s\n' % (s0, tf, c)
+        R = [("start", [("T", "d", None), ("N", "w", str(s0))], None), ("w", [("N", "v", tf)], None), ("v", [("T", "a", None), ("N", "w", "_"), ("T", "e", None)], None), ("v", [("T", "b", None)], c)]
+        par = {"w", "v"}
     else:
         m = rng.choice([3, 5, 6])
         text = 'start: x::%d\nx::_: "a" x::bit_and(%d) %%if %s\n    | "b" x::bit_or(1) %%if bit_clear(0)\n    | "c"\n' % (rng.randint(0, 7), m, c)
